@@ -3,6 +3,7 @@ package watcher
 import (
 	"context"
 	"fmt"
+	"runtime"
 	"time"
 
 	goelectrum "github.com/checksum0/go-electrum/electrum"
@@ -17,6 +18,7 @@ type poll struct {
 
 // driver abstracts what differs between the two real watchers.
 type driver interface {
+	setStep(st *Step)
 	addC(start int)
 	addV()
 	deliver(p poll)
@@ -77,6 +79,7 @@ func Run(sc Schedule) (out []map[string]any, err error) {
 				s.End()
 			case "addv":
 				s.Begin(st)
+				d.setStep(st)
 				d.addV()
 				s.End()
 			case "deliver":
@@ -89,6 +92,7 @@ func Run(sc Schedule) (out []map[string]any, err error) {
 				s.End()
 			case "csvtick":
 				s.Begin(st)
+				d.setStep(st)
 				d.csvtick()
 				s.End()
 			}
@@ -115,7 +119,10 @@ type rpcDriver struct {
 	sc     Schedule
 	w      *txwatcher.BlockchainRpcTxWatcher
 	addedC bool
+	step   *Step
 }
+
+func (d *rpcDriver) setStep(st *Step) { d.step = st }
 
 func newRpcDriver(s *Sim, sc Schedule) *rpcDriver {
 	w := txwatcher.NewBlockchainRpcTxWatcher(context.Background(), rpcNode{s}, uint32(sc.Confs))
@@ -155,6 +162,51 @@ func (d *rpcDriver) addC(start int) {
 	s.mu.Unlock()
 }
 
+// gated runs a call of the watcher that may make the csv callback - on the
+// caller's goroutine (HandleCsvTx) or on one of its own (AddWaitForCsvTx) - and
+// returns when the call has returned and the callback, if one is due, has been
+// made: the callback announces itself, the actions the schedule puts between the
+// observation and the callback are applied, the callback is released. Waiting
+// too long is a machinery error (panic -> exit 2), never a verdict.
+func (d *rpcDriver) gated(st *Step, call func(), due func() bool) {
+	s := d.s
+	g := s.openGate()
+	defer s.closeGate()
+	ret := make(chan struct{})
+	go func() { call(); close(ret) }()
+	returned, cbs := false, 0
+	pre := st.PreCb
+	applyPre := func() {
+		for _, e := range pre {
+			s.Apply(e)
+		}
+		pre = nil
+	}
+	long := time.After(30 * time.Second)
+	for {
+		if returned && (cbs > 0 || !due()) {
+			break
+		}
+		select {
+		case <-g.arrived:
+			applyPre()
+			g.release <- struct{}{}
+			select {
+			case <-g.finished:
+			case <-long:
+				panic("csv callback did not return")
+			}
+			cbs++
+		case <-ret:
+			returned = true
+			ret = nil
+		case <-long:
+			panic(fmt.Sprintf("csv callback due but not made (returned=%v)", returned))
+		}
+	}
+	applyPre() // no callback: the actions simply happen after the call
+}
+
 func (d *rpcDriver) addV() {
 	s := d.s
 	s.mu.Lock()
@@ -162,7 +214,41 @@ func (d *rpcDriver) addV() {
 	s.hcons["v"] = 0
 	s.emit(line{"e": "add", "reg": "v"})
 	s.mu.Unlock()
-	d.w.AddWaitForCsvTx(SwapV, TxID, TxVout, uint32(s.Base+1), uint32(d.sc.Csv), Script)
+	d.gated(d.step, func() {
+		d.w.AddWaitForCsvTx(SwapV, TxID, TxVout, uint32(s.Base+1), uint32(d.sc.Csv), Script)
+	}, func() bool {
+		// after the return: not on the watch list = the callback was handed to a goroutine
+		if !d.w.VerifCsvWatched(SwapV) {
+			return true
+		}
+		// on the list although the node's answer was past the csv (not the unchanged code): give a callback a moment
+		s.mu.Lock()
+		above := s.lastTxOut >= d.sc.Csv
+		s.mu.Unlock()
+		if above {
+			time.Sleep(50 * time.Millisecond)
+		}
+		return false
+	})
+	// a failed callback registers the output afterwards
+	for i := 0; !d.w.VerifCsvWatched(SwapV) && d.lastCbFailed(); i++ {
+		if i > 3000000 {
+			panic("output not registered after a failed csv callback")
+		}
+		runtime.Gosched()
+	}
+}
+
+func (d *rpcDriver) lastCbFailed() bool {
+	s := d.s
+	s.mu.Lock()
+	defer s.mu.Unlock()
+	for i := len(s.out) - 1; i >= 0; i-- {
+		if s.out[i]["e"] == "report" && s.out[i]["reg"] == "v" {
+			return s.out[i]["ok"] == false
+		}
+	}
+	return false
 }
 
 func (d *rpcDriver) deliver(p poll) {
@@ -183,7 +269,7 @@ func (d *rpcDriver) csvtick() {
 	s.hcons["v"] = 0
 	tip := len(s.chain)
 	s.mu.Unlock()
-	_ = d.w.HandleCsvTx(uint64(s.Base + tip))
+	d.gated(d.step, func() { _ = d.w.HandleCsvTx(uint64(s.Base + tip)) }, func() bool { return false })
 }
 
 func (d *rpcDriver) stop() {}
@@ -255,5 +341,7 @@ func (d *elDriver) deliver(p poll) {
 }
 
 func (d *elDriver) csvtick() {}
+
+func (d *elDriver) setStep(st *Step) {}
 
 func (d *elDriver) stop() { close(d.s.hdr) }
